@@ -5,7 +5,7 @@ import gen_codec5 as G5
 from props import inbound_common as IB
 from props.base import Part
 
-PROPS_FILES = ["C12", "C12v5"]
+PROPS_FILES = ["C12", "C12v5", "C12burst"]
 USES_GEN = True
 
 RULE = ("operation sequences on one limiter behind ntex_service::Pipeline::bind (poll_ready / hand-over of a "
@@ -151,6 +151,9 @@ def parts(tier, rng):
         if p.ver == 5:
             p.name = "v5-receive-maximum-" + p.name
             res.append(p)
+    # the limits on real servers when several frames arrive in one read (Model/InboundBurst.v): scans P19 (v3: never
+    # more handlers at once than max_receive), P20 (everything is handled once the handlers finish), P13 (v5: 0x93)
+    res += IB.burst_parts(tier, rng, ("C12",))
     return res
 
 
